@@ -476,7 +476,7 @@ pub fn run(ctx: &Ctx) -> Finish {
                         let sparsity = (li + 2 * ki + si) % 4;
                         l.states += 1;
                         let case = Case::Model { lp: make_lp(&[r], std::slice::from_ref(c), obj_rhs, *sense, st, sparsity), layout: *lay, reader };
-                        if li == 3 && ki == 1 && si == 0 && ctx.want_sample(i as u64) {
+                        if (li == 3 && ki == 1 && si == 0 && ctx.want_sample(i as u64)) || (i == 0 && li == 0 && ki == 0 && si == 0) {
                             l.samples.push((i as u64, json!(case)));
                         }
                         check_case(l, &case);
